@@ -33,6 +33,7 @@ const (
 	stDone
 )
 
+//go:norace
 func (s taskState) String() string {
 	return [...]string{"runnable", "lockwait", "native", "running", "done"}[s]
 }
@@ -64,9 +65,14 @@ type Task struct {
 	held       int // number of simulated locks currently held (diagnostics)
 }
 
+//go:norace
 func (t *Task) State() string { return taskState(t.state.Load()).String() }
+
+//go:norace
 func (t *Task) st() taskState { return taskState(t.state.Load()) }
-func (t *Task) Done() bool    { return t.st() == stDone }
+
+//go:norace
+func (t *Task) Done() bool { return t.st() == stDone }
 
 type Event struct {
 	at   time.Duration
@@ -79,32 +85,50 @@ type Event struct {
 
 type eventHeap []*Event
 
+//go:norace
 func (h eventHeap) Len() int { return len(h) }
+
+//go:norace
 func (h eventHeap) Less(i, j int) bool {
 	if h[i].at != h[j].at {
 		return h[i].at < h[j].at
 	}
 	return h[i].seq < h[j].seq
 }
-func (h eventHeap) Swap(i, j int)  { h[i], h[j] = h[j], h[i]; h[i].idx = i; h[j].idx = j }
-func (h *eventHeap) Push(x any)    { e := x.(*Event); e.idx = len(*h); *h = append(*h, e) }
-func (h *eventHeap) Pop() any      { o := *h; n := len(o); e := o[n-1]; *h = o[:n-1]; e.idx = -1; return e }
-func (h eventHeap) top() *Event    { return h[0] }
+
+//go:norace
+func (h eventHeap) Swap(i, j int) { h[i], h[j] = h[j], h[i]; h[i].idx = i; h[j].idx = j }
+
+//go:norace
+func (h *eventHeap) Push(x any) { e := x.(*Event); e.idx = len(*h); *h = append(*h, e) }
+
+//go:norace
+func (h *eventHeap) Pop() any {
+	o := *h
+	n := len(o)
+	e := o[n-1]
+	*h = o[:n-1]
+	e.idx = -1
+	return e
+}
+
+//go:norace
+func (h eventHeap) top() *Event { return h[0] }
 
 // Config selects the schedule space sampled by one run.
 type Config struct {
-	Seed       uint64
-	Policy     string  // "seq" | "rand" | "pct"
-	Sticky     float64 // rand: probability of continuing the task that ran last
-	PCTDepth   int     // pct: number of priority change points + 1
-	PCTLen     int     // pct: estimated run length in steps
-	StallProb  float64 // probability that a scheduling point stalls the task for a while
-	StallMax   time.Duration
-	MaxSteps   uint64
-	Trace      bool // keep the textual event log
-	EventFirst bool // seq policy: due events before tasks (default tasks first)
+	Seed        uint64
+	Policy      string  // "seq" | "rand" | "pct"
+	Sticky      float64 // rand: probability of continuing the task that ran last
+	PCTDepth    int     // pct: number of priority change points + 1
+	PCTLen      int     // pct: estimated run length in steps
+	StallProb   float64 // probability that a scheduling point stalls the task for a while
+	StallMax    time.Duration
+	MaxSteps    uint64
+	Trace       bool   // keep the textual event log
+	EventFirst  bool   // seq policy: due events before tasks (default tasks first)
 	SelectOrder string // "" = seeded permutation of ready cases; "source" / "reverse" = fixed preference
-	SortedMaps bool // iterate maps in sorted key order instead of a seeded permutation
+	SortedMaps  bool   // iterate maps in sorted key order instead of a seeded permutation
 }
 
 type Sim struct {
@@ -146,9 +170,12 @@ type Sim struct {
 
 var theSim atomic.Pointer[Sim]
 
+//go:norace
 func cur() *Sim { return theSim.Load() }
 
 // New creates the simulator; it must be called from the root goroutine of a synctest bubble.
+//
+//go:norace
 func New(cfg Config) *Sim {
 	if cfg.MaxSteps == 0 {
 		cfg.MaxSteps = 5_000_000
@@ -182,11 +209,16 @@ func New(cfg Config) *Sim {
 	return s
 }
 
+//go:norace
 func (s *Sim) Now() time.Duration { return time.Since(s.start) }
-func (s *Sim) Config() Config     { return s.cfg }
+
+//go:norace
+func (s *Sim) Config() Config { return s.cfg }
 
 // Logf appends to the event log (digest always, text only when tracing). It never draws
 // from a PRNG and never reads a clock other than the simulated one.
+//
+//go:norace
 func (s *Sim) Logf(format string, a ...any) {
 	var tb [8]byte
 	binary.LittleEndian.PutUint64(tb[:], uint64(s.Now()))
@@ -202,10 +234,15 @@ func (s *Sim) Logf(format string, a ...any) {
 	s.digest.Write([]byte{'\n'})
 }
 
-func (s *Sim) Digest() string  { return hex.EncodeToString(s.digest.Sum(nil)) }
+//go:norace
+func (s *Sim) Digest() string { return hex.EncodeToString(s.digest.Sum(nil)) }
+
+//go:norace
 func (s *Sim) Trace() []string { return s.trace }
 
 // After schedules f on the scheduler goroutine at now+d.
+//
+//go:norace
 func (s *Sim) After(d time.Duration, kind string, f func()) *Event {
 	if d < 0 {
 		d = 0
@@ -216,6 +253,7 @@ func (s *Sim) After(d time.Duration, kind string, f func()) *Event {
 	return e
 }
 
+//go:norace
 func (s *Sim) Cancel(e *Event) {
 	if e == nil || e.dead {
 		return
@@ -226,6 +264,7 @@ func (s *Sim) Cancel(e *Event) {
 	}
 }
 
+//go:norace
 func (s *Sim) PendingEvents(kindPrefix string) int {
 	n := 0
 	for _, e := range s.events {
@@ -237,6 +276,8 @@ func (s *Sim) PendingEvents(kindPrefix string) int {
 }
 
 // NextEventAt reports the time of the earliest pending event.
+//
+//go:norace
 func (s *Sim) NextEventAt() (time.Duration, bool) {
 	if len(s.events) == 0 {
 		return 0, false
@@ -244,6 +285,7 @@ func (s *Sim) NextEventAt() (time.Duration, bool) {
 	return s.events.top().at, true
 }
 
+//go:norace
 func (s *Sim) mapRand(site string) *Rand {
 	r := s.maps[site]
 	if r == nil {
@@ -256,6 +298,7 @@ func (s *Sim) mapRand(site string) *Rand {
 // ---------------------------------------------------------------------------------------------
 // tasks
 
+//go:norace
 func (s *Sim) spawn(name string, f func()) *Task {
 	t := &Task{ID: s.nextID, Name: name, wake: make(chan struct{}, 1), kill: make(chan struct{})}
 	s.nextID++
@@ -276,22 +319,31 @@ func (s *Sim) spawn(name string, f func()) *Task {
 					s.Panics = append(s.Panics, t)
 				}
 			}
+			raceDisable()
 			t.state.Store(int32(stDone))
 			if s.current == t {
 				s.current = nil
 			}
+			raceEnable()
 		}()
+		// Hand-offs of the baton must not look like synchronisation to the race detector:
+		// the program's own happens-before edges are the only ones it may see.
+		raceDisable()
 		select {
 		case <-t.wake:
 		case <-t.kill:
+			raceEnable()
 			return
 		}
+		raceEnable()
 		f()
 	}()
 	return t
 }
 
 // Go is what an instrumented `go` statement becomes.
+//
+//go:norace
 func Go(site string, f func()) {
 	s := cur()
 	if s == nil {
@@ -302,14 +354,18 @@ func Go(site string, f func()) {
 }
 
 // GoLabel spawns a task with a harness label and returns it.
+//
+//go:norace
 func (s *Sim) GoLabel(site, label string, f func()) *Task {
 	t := s.spawn(site, f)
 	t.Label = label
 	return t
 }
 
+//go:norace
 func (s *Sim) Tasks() []*Task { return s.tasks }
 
+//go:norace
 func (s *Sim) LiveTasks() []*Task {
 	var r []*Task
 	for _, t := range s.tasks {
@@ -321,7 +377,10 @@ func (s *Sim) LiveTasks() []*Task {
 }
 
 // park gives the baton back and waits for it. st is the state to park in.
+//
+//go:norace
 func (s *Sim) park(t *Task, st taskState) {
+	raceDisable()
 	t.state.Store(int32(st))
 	if s.current == t {
 		s.current = nil
@@ -329,12 +388,16 @@ func (s *Sim) park(t *Task, st taskState) {
 	select {
 	case <-t.wake:
 	case <-t.kill:
+		raceEnable()
 		runtime.Goexit()
 	}
+	raceEnable()
 }
 
 // self returns the task holding the baton. Calling a simulated operation from a goroutine
 // that is not a task (or from the scheduler outside Inspect) is a harness defect.
+//
+//go:norace
 func (s *Sim) self(op string) *Task {
 	t := s.current
 	if t == nil {
@@ -343,6 +406,7 @@ func (s *Sim) self(op string) *Task {
 	return t
 }
 
+//go:norace
 func callerSite(skip int) string {
 	var pcs [1]uintptr
 	if runtime.Callers(skip+1, pcs[:]) == 0 {
@@ -365,6 +429,8 @@ func callerSite(skip int) string {
 }
 
 // yield is a plain scheduling point.
+//
+//go:norace
 func (s *Sim) yield(site string) {
 	t := s.self("yield@" + site)
 	t.Site = site
@@ -379,6 +445,8 @@ func (s *Sim) yield(site string) {
 }
 
 // Yield is a scheduling point usable by harness stubs running inside tasks.
+//
+//go:norace
 func Yield(site string) {
 	s := cur()
 	if s == nil || s.inspect || s.killing {
@@ -388,26 +456,37 @@ func Yield(site string) {
 }
 
 // enterNative / exitNative bracket a native blocking operation executed by a task.
+//
+//go:norace
 func (s *Sim) enterNative(t *Task) {
+	raceDisable()
 	t.state.Store(int32(stNative))
 	s.current = nil
+	raceEnable()
 }
 
+//go:norace
 func (s *Sim) exitNative(t *Task) {
 	// Runs concurrently with whoever holds the baton: touch nothing but our own state.
 	s.parkQuiet(t)
 }
 
+//go:norace
 func (s *Sim) parkQuiet(t *Task) {
+	raceDisable()
 	t.state.Store(int32(stRunnable))
 	select {
 	case <-t.wake:
 	case <-t.kill:
+		raceEnable()
 		runtime.Goexit()
 	}
+	raceEnable()
 }
 
 // Block parks the calling task until ch is closed or receives (harness stubs: simulated I/O).
+//
+//go:norace
 func Block(site string, ch <-chan struct{}) {
 	s := cur()
 	if s == nil || s.inspect {
@@ -446,6 +525,7 @@ type cand struct {
 	ev bool
 }
 
+//go:norace
 func (s *Sim) lockReady(t *Task) bool {
 	if t.grant {
 		return true
@@ -464,7 +544,11 @@ func (s *Sim) lockReady(t *Task) bool {
 
 // Step performs one scheduling decision. It returns false when nothing can ever happen
 // again without outside input (no runnable task, no pending event).
+//
+//go:norace
 func (s *Sim) Step() bool {
+	raceDisable()
+	defer raceEnable()
 	synctest.Wait()
 	if s.current != nil {
 		// A task kept the baton and is durably blocked in something we do not model.
@@ -527,7 +611,9 @@ func (s *Sim) Step() bool {
 		e := heap.Pop(&s.events).(*Event)
 		e.dead = true
 		s.Logf("E %s", e.Kind)
+		raceEnable()
 		e.fn()
+		raceDisable()
 		return true
 	}
 	t := c.t
@@ -549,6 +635,7 @@ func (s *Sim) Step() bool {
 	return true
 }
 
+//go:norace
 func (s *Sim) pick(cands []cand, evDue bool) cand {
 	switch s.cfg.Policy {
 	case "seq":
@@ -598,6 +685,7 @@ func (s *Sim) pick(cands []cand, evDue bool) cand {
 	}
 }
 
+//go:norace
 func (s *Sim) pctBest(cands []cand, evDue bool) cand {
 	var best cand
 	bp := -1e18
@@ -614,6 +702,8 @@ func (s *Sim) pctBest(cands []cand, evDue bool) cand {
 }
 
 // RunUntil runs until simulated time t, or until nothing can happen.
+//
+//go:norace
 func (s *Sim) RunUntil(t time.Duration) {
 	for {
 		synctest.Wait()
@@ -630,6 +720,8 @@ func (s *Sim) RunUntil(t time.Duration) {
 }
 
 // anythingBefore: is there a runnable task now or an event at or before t?
+//
+//go:norace
 func (s *Sim) anythingBefore(t time.Duration) bool {
 	if s.Failure != "" {
 		return false
@@ -654,13 +746,21 @@ func (s *Sim) anythingBefore(t time.Duration) bool {
 }
 
 // RunFor advances the simulation by d.
+//
+//go:norace
 func (s *Sim) RunFor(d time.Duration) { s.RunUntil(s.Now() + d) }
 
 // Settle runs all runnable tasks and all events that are due now, without advancing time.
+//
+//go:norace
 func (s *Sim) Settle() { s.RunUntil(s.Now()) }
 
 // BeginBlock / EndBlock delimit a concurrent block for the interleaving signature.
+//
+//go:norace
 func (s *Sim) BeginBlock() { s.blockHash = sha256.New() }
+
+//go:norace
 func (s *Sim) EndBlock() string {
 	if s.blockHash == nil {
 		return ""
@@ -671,6 +771,8 @@ func (s *Sim) EndBlock() string {
 }
 
 // Describe lists the live tasks with their states (diagnostics for wedges).
+//
+//go:norace
 func (s *Sim) Describe() []string {
 	var out []string
 	for _, t := range s.tasks {
@@ -692,10 +794,14 @@ func (s *Sim) Describe() []string {
 }
 
 // SiteHits returns how often each scheduling site was resumed.
+//
+//go:norace
 func (s *Sim) SiteHits() map[string]int { return s.siteHits }
 
 // Inspect runs f on the scheduler goroutine with lock operations taken directly (no
 // scheduling points). If a lock is held by a parked task, f is abandoned and false returned.
+//
+//go:norace
 func (s *Sim) Inspect(f func()) (ok bool) {
 	s.inspect = true
 	defer func() {
@@ -716,6 +822,8 @@ type inspectBusy struct{}
 
 // Close ends the run: every task that is still alive is killed (its deferred calls run with
 // simulated operations degraded to non-blocking ones). It must be called inside the bubble.
+//
+//go:norace
 func (s *Sim) Close() {
 	s.killing = true
 	for i := 0; i < len(s.tasks); i++ { // tasks may spawn tasks while dying
@@ -725,8 +833,10 @@ func (s *Sim) Close() {
 		}
 		t.killed = true
 		s.current = t
+		raceDisable()
 		close(t.kill)
 		synctest.Wait()
+		raceEnable()
 		s.current = nil
 	}
 	s.events = nil
@@ -737,6 +847,8 @@ var siteCache = newSiteCache()
 
 // StallTasks withholds the baton from every live task whose spawn site has the given prefix
 // for d of simulated time (the "slow or stalled node" fault aimed at one component).
+//
+//go:norace
 func (s *Sim) StallTasks(prefix string, d time.Duration) int {
 	n := 0
 	until := s.Now() + d
